@@ -587,6 +587,22 @@ func (f *File) Break(t *rapid.T, rule string, skip func(b *Breaking) bool) (*Bre
 			sites = deep
 		}
 	}
+	// steer towards the contexts the property quantifies over
+	if pref := rapid.SampledFrom([]string{"", "", "", "continuing", "continuing", "nested", "builtin-arg", "call-arg",
+		"const-init", "loop", "helper", "entry", "switch", "for-header", "index", "if"}).Draw(t, "context"); pref != "" {
+		var in []breakSite
+		for _, s := range sites {
+			for _, w := range f.where(s.tok) {
+				if w == pref {
+					in = append(in, s)
+					break
+				}
+			}
+		}
+		if len(in) > 0 {
+			sites = in
+		}
+	}
 	// draw the variant first so that frequent variants do not starve rare ones
 	subs := map[string]bool{}
 	for _, s := range sites {
